@@ -78,9 +78,9 @@ def jpyval (j : Json) : PyVal :=
   match jarr j with
   | [.str "int", n] => .int (jint n)
   | [.str "bool", b] => .bool (jbool b)
-  | [.str "float"] => .float
-  | [.str "str", c] => .str (jbool c)
-  | [.str "bytes"] => .bytes
+  | (.str "float") :: _ => .float                       -- a trailing item names the concrete value (0.0, "", b""): same kind
+  | (.str "str") :: c :: _ => .str (jbool c)
+  | (.str "bytes") :: _ => .bytes
   | [.str "date"] => .date
   | [.str "datetime"] => .datetime
   | _ => .other
@@ -95,6 +95,15 @@ def pyvalJ : PyVal → Json
   | .datetime => Json.arr #["datetime"]
   | .other => Json.arr #["other"]
 
+/-- `max_interval` argument: `null` / `false` = None; anything else (`true` = 5 s, `"zero"` = a zero-length, falsy
+    duration, `"zero-arith"` = 1 h − 60 min) is a value that `is not None`. -/
+def jpresent (j : Json) : Bool := match j with | .null => false | .bool b => b | _ => true
+
+def jsmlElem (j : Json) : SmlElem :=
+  match jarr j with
+  | [c, si, v, h] => ⟨jstr c, jopt jnat si, jopt jstr v, jbool h⟩
+  | _ => ⟨"", none, none, false⟩
+
 def jkvs (j : Json) : List (Str × Str) :=
   (jarr j).map (fun e => match jarr e with | [k, v] => (jstrRL k, jstrRL v) | _ => ([], []))
 
@@ -104,7 +113,8 @@ structure St where
   asset : Option Asset := none
   sem : Option Sem := none
   event : Option Event := none
-  lss : Option Lss := none
+  lss : Option LssW := none
+  smlm : Option SmlM := none
   typed : Option Typed := none
 
 def init : St := {}
@@ -115,6 +125,16 @@ def assetJ (a : Asset) : Json := Json.arr #[optJ strJ a.gid, natsJ a.sids, optJ 
 def semJ (s : Sem) : Json := Json.arr #[optJ natJ s.sem, natsJ s.supp]
 def eventJ (e : Event) : Json := Json.arr #[dirJ e.direction, e.maxInterval, stampJ e.lastUpdate, optJ strJ e.topic]
 def lssJ (l : Lss) : Json := Json.arr (l.d.map (fun e => Json.arr #[strJ e.1, strJ e.2])).toArray
+def lsswJ (w : LssW) : Json := Json.arr #[lssJ w.a, optJ lssJ w.b, lssJ ⟨"", w.src⟩]
+
+/-- [tags in list order, per creation number: [class, semantic id, value type, id_short state 0 none / 1 user / 2 generated, in the list?]] -/
+def smlmJ (s : SmlM) : Json :=
+  let one := fun (t : Nat) => match lookupTag t s.order, lookupTag t s.detached with
+    | some e, _ => Json.arr #[e.cls, optJ natJ e.semId, optJ Json.str e.valueType, (2 : Nat), true]
+    | none, some e => Json.arr #[e.cls, optJ natJ e.semId, optJ Json.str e.valueType, (if e.hasIdShort then 1 else 0 : Nat), false]
+    | none, none => .null
+  Json.arr #[natsJ (s.order.map (·.1)), Json.arr ((List.range s.next).map one).toArray]
+
 def typedJ (t : Typed) : Json := Json.arr #[optJ Json.str t.valueType, optJ pyvalJ t.value]
 
 def out (r : Res Unit) (view : Json) : Json := Json.arr #[resJ r, view]
@@ -157,6 +177,14 @@ def listObj {α : Type} (o : Option α) (stepf : α → LOp → α × Res Unit) 
     | some (a', r) => (some a', out r (view a'))
     | none => (some a, Json.arr #["bad-op"])
 
+/-- typed slot (Property.value, Range.min/max, Qualifier.value, Extension.value) -/
+def handleTyped (s : St) (op : String) (args : List Json) : St × Json :=
+  match op, args with
+  | "typed.new", [t, v] => let (o, j) := newObj (Typed.ctor (jopt jstr t) (jopt jpyval v)) typedJ; ({ s with typed := o }, j)
+  | "typed.value", [v] => let (o, j) := stepObj s.typed (·.step (.setValue (jopt jpyval v))) typedJ; ({ s with typed := o }, j)
+  | "typed.value_type", [t] => let (o, j) := stepObj s.typed (·.step (.setValueType (jopt jstr t))) typedJ; ({ s with typed := o }, j)
+  | _, _ => (s, Json.arr #["bad-op"])
+
 def handle' (s : St) (op : String) (args : List Json) : St × Json :=
   match op, args with
   | "str", [n, v] => (s, resJ (checkNamed (jstr n) (jstrRL v)))
@@ -178,6 +206,15 @@ def handle' (s : St) (op : String) (args : List Json) : St × Json :=
       | [c, si, v, h] => (⟨jstr c, jopt jnat si, jopt jstr v, jbool h⟩ : SmlElem)
       | _ => ⟨"", none, none, false⟩
     (s, resJ (smlAddChk ⟨jstr tv, jopt jnat sil, jopt jstr vt⟩ (el new) ((jarr ex).map el)))
+  -- SubmodelElementList machine (children modified while contained)
+  | "smlm.new", [tv, sil, vt, es] =>
+    let (o, j) := newObj (SmlM.ctor ⟨jstr tv, jopt jnat sil, jopt jstr vt⟩ ((jarr es).map jsmlElem)) smlmJ; ({ s with smlm := o }, j)
+  | "smlm.add", [e] => let (o, j) := stepObj s.smlm (·.step (.add (jsmlElem e))) smlmJ; ({ s with smlm := o }, j)
+  | "smlm.readd", [t] => let (o, j) := stepObj s.smlm (·.step (.readd (jnat t))) smlmJ; ({ s with smlm := o }, j)
+  | "smlm.setsem", [t, r] => let (o, j) := stepObj s.smlm (·.step (.setSem (jnat t) (jopt jnat r))) smlmJ; ({ s with smlm := o }, j)
+  | "smlm.setvt", [t, v] => let (o, j) := stepObj s.smlm (·.step (.setVt (jnat t) (jopt jstr v))) smlmJ; ({ s with smlm := o }, j)
+  | "smlm.setid", [t, u] => let (o, j) := stepObj s.smlm (·.step (.setId (jnat t) (jbool u))) smlmJ; ({ s with smlm := o }, j)
+  | "smlm.remove", [t] => let (o, j) := stepObj s.smlm (·.step (.remove (jnat t))) smlmJ; ({ s with smlm := o }, j)
   -- AdministrativeInformation
   | "admin.new", [v, r, t] => let (o, j) := newObj (Admin.ctor (ostr v) (ostr r) (ostr t)) adminJ; ({ s with admin := o }, j)
   | "admin.version", [v] => let (o, j) := stepObj s.admin (·.step (.setVersion (ostr v))) adminJ; ({ s with admin := o }, j)
@@ -189,38 +226,49 @@ def handle' (s : St) (op : String) (args : List Json) : St × Json :=
   | "entity.gid", [g] => let (o, j) := stepObj s.entity (·.step (.setGid (ostr g))) entityJ; ({ s with entity := o }, j)
   | "entity.list", [l] =>
     let (o, j) := listObj s.entity (fun e lop => e.step (.list lop)) (·.sids) entityJ l; ({ s with entity := o }, j)
+  | "entity.src", [_] => let (o, j) := stepObj s.entity (fun e => (e, .ok ())) entityJ; ({ s with entity := o }, j)
   -- AssetInformation
   | "asset.new", [g, l, t] => let (o, j) := newObj (Asset.ctor (ostr g) (jnats l) (ostr t)) assetJ; ({ s with asset := o }, j)
   | "asset.gid", [g] => let (o, j) := stepObj s.asset (·.step (.setGid (ostr g))) assetJ; ({ s with asset := o }, j)
   | "asset.asset_type", [t] => let (o, j) := stepObj s.asset (·.step (.setAssetType (ostr t))) assetJ; ({ s with asset := o }, j)
   | "asset.list", [l] =>
     let (o, j) := listObj s.asset (fun e lop => e.step (.list lop)) (·.sids) assetJ l; ({ s with asset := o }, j)
+  | "asset.src", [_] => let (o, j) := stepObj s.asset (fun e => (e, .ok ())) assetJ; ({ s with asset := o }, j)
   -- HasSemantics
   | "sem.new", [r, l] => let (o, j) := newObj (Sem.ctor (jopt jnat r) (jnats l)) semJ; ({ s with sem := o }, j)
   | "sem.sem", [r] => let (o, j) := stepObj s.sem (·.step (.setSem (jopt jnat r))) semJ; ({ s with sem := o }, j)
   | "sem.list", [l] =>
     let (o, j) := listObj s.sem (fun e lop => e.step (.list lop)) (·.supp) semJ l; ({ s with sem := o }, j)
+  | "sem.src", [_] => let (o, j) := stepObj s.sem (fun e => (e, .ok ())) semJ; ({ s with sem := o }, j)
   -- BasicEventElement
   | "event.new", [d, t, lu, mi] =>
-    let (o, j) := newObj (Event.ctor (jdir d) (ostr t) (jstamp lu) (jbool mi)) eventJ; ({ s with event := o }, j)
+    let (o, j) := newObj (Event.ctor (jdir d) (ostr t) (jstamp lu) (jpresent mi)) eventJ; ({ s with event := o }, j)
   | "event.direction", [d] => let (o, j) := stepObj s.event (·.step (.setDirection (jdir d))) eventJ; ({ s with event := o }, j)
-  | "event.max_interval", [p] => let (o, j) := stepObj s.event (·.step (.setMaxInterval (jbool p))) eventJ; ({ s with event := o }, j)
+  | "event.max_interval", [p] => let (o, j) := stepObj s.event (·.step (.setMaxInterval (jpresent p))) eventJ; ({ s with event := o }, j)
   | "event.last_update", [t] => let (o, j) := stepObj s.event (·.step (.setLastUpdate (jstamp t))) eventJ; ({ s with event := o }, j)
   | "event.topic", [t] => let (o, j) := stepObj s.event (·.step (.setTopic (ostr t))) eventJ; ({ s with event := o }, j)
   -- LangStringSet family
-  | "lss.new", [c, d] => let (o, j) := newObj (Lss.ctor (jstr c) (jkvs d)) lssJ; ({ s with lss := o }, j)
-  | "lss.set", [k, v] => let (o, j) := stepObj s.lss (·.step (.setItem (jstrRL k) (jstrRL v))) lssJ; ({ s with lss := o }, j)
-  | "lss.del", [k] => let (o, j) := stepObj s.lss (·.step (.delItem (jstrRL k))) lssJ; ({ s with lss := o }, j)
-  | "lss.clear", [] => let (o, j) := stepObj s.lss (·.step .clear) lssJ; ({ s with lss := o }, j)
-  | "lss.update", [d] => let (o, j) := stepObj s.lss (·.step (.update (jkvs d))) lssJ; ({ s with lss := o }, j)
-  | "lss.setdefault", [k, v] => let (o, j) := stepObj s.lss (·.step (.setDefault (jstrRL k) (jstrRL v))) lssJ; ({ s with lss := o }, j)
-  | "lss.pop", [k] => let (o, j) := stepObj s.lss (·.step (.pop (jstrRL k))) lssJ; ({ s with lss := o }, j)
-  | "lss.popitem", [] => let (o, j) := stepObj s.lss (·.step .popItem) lssJ; ({ s with lss := o }, j)
-  -- typed slot (Property.value, Range.min/max, Qualifier.value, Extension.value)
-  | "typed.new", [t, v] => let (o, j) := newObj (Typed.ctor (jopt jstr t) (jopt jpyval v)) typedJ; ({ s with typed := o }, j)
-  | "typed.value", [v] => let (o, j) := stepObj s.typed (·.step (.setValue (jopt jpyval v))) typedJ; ({ s with typed := o }, j)
-  | "typed.value_type", [t] => let (o, j) := stepObj s.typed (·.step (.setValueType (jopt jstr t))) typedJ; ({ s with typed := o }, j)
-  | _, _ => (s, Json.arr #["bad-op"])
+  | "lss.new", [c, d] => let (o, j) := newObj (LssW.ctor (jstr c) (jkvs d)) lsswJ; ({ s with lss := o }, j)
+  | "lss.new2", [c, f] => let (o, j) := stepObj s.lss (·.step (.newB (jstr c) (jbool f))) lsswJ; ({ s with lss := o }, j)
+  | "lss.src.set", [k, v] => let (o, j) := stepObj s.lss (·.step (.srcSet (jstrRL k) (jstrRL v))) lsswJ; ({ s with lss := o }, j)
+  | "lss.src.del", [k] => let (o, j) := stepObj s.lss (·.step (.srcDel (jstrRL k))) lsswJ; ({ s with lss := o }, j)
+  | "lss.src.clear", [] => let (o, j) := stepObj s.lss (·.step .srcClear) lsswJ; ({ s with lss := o }, j)
+  | op, args =>
+    match (if op.startsWith "lss.o2." then some (LssWOp.onB, (op.drop 7).toString) else if op.startsWith "lss." then some (LssWOp.onA, (op.drop 4).toString) else none) with
+    | some (side, what) =>
+      let lop : Option LssOp := match what, args with
+        | "set", [k, v] => some (.setItem (jstrRL k) (jstrRL v))
+        | "del", [k] => some (.delItem (jstrRL k))
+        | "clear", [] => some .clear
+        | "update", [d] => some (.update (jkvs d))
+        | "setdefault", [k, v] => some (.setDefault (jstrRL k) (jstrRL v))
+        | "pop", [k] => some (.pop (jstrRL k))
+        | "popitem", [] => some .popItem
+        | _, _ => none
+      match lop with
+      | some l => let (o, j) := stepObj s.lss (·.step (side l)) lsswJ; ({ s with lss := o }, j)
+      | none => (s, Json.arr #["bad-op"])
+    | none => handleTyped s op args
 
 /-- a trailing JSON object on a line is harness metadata (entry point, container kind, host class): ignored here -/
 def handle (s : St) (op : String) (args : List Json) : St × Json :=
